@@ -416,3 +416,53 @@ func ruleFOLDTABLE(c *Ctx) {
 		c.add(rule, "count:", token.NoPos, CountDropped, true, "only %d fold-table lookups found in appendNamedSet (FoldCategory and FoldScript confirmed by hand)", n)
 	}
 }
+
+// THRESHOLD(is-recovering): the generated parser gets its error handler, recoverFromError and
+// skipBrokenCode exactly when the grammar uses the error token, that is when the set of
+// terminals that can follow `error` is non-empty. The value stored into IsRecovering must be the
+// comparison of that length with zero (len > 0 / len != 0): any other threshold drops recovery
+// for grammars whose only recovery rule is `stmt: error ';'`.
+func ruleISRECOVERING(c *Ctx) {
+	const rule = "THRESHOLD(is-recovering)"
+	n := 0
+	for _, f := range c.SrcFuncs("compiler") {
+		for _, b := range f.Blocks {
+			for _, ins := range b.Instrs {
+				st, ok := ins.(*ssa.Store)
+				if !ok {
+					continue
+				}
+				fa, ok := st.Addr.(*ssa.FieldAddr)
+				if !ok || fieldName(fa.X.Type(), fa.Field) != "IsRecovering" {
+					continue
+				}
+				n++
+				key := ssaFuncKey(f) + ":IsRecovering"
+				l, op, r, ok := cmpNormV(st.Val, true)
+				isLen := func(v ssa.Value) bool {
+					call, ok := stripConv(v).(*ssa.Call)
+					if !ok {
+						return false
+					}
+					bi, ok := call.Call.Value.(*ssa.Builtin)
+					return ok && bi.Name() == "len"
+				}
+				zero := func(v ssa.Value) bool {
+					k, ok := v.(*ssa.Const)
+					return ok && k.Value != nil && vpath(k) == "0"
+				}
+				switch {
+				case !ok:
+					c.Undec(rule, key, st.Pos(), "IsRecovering receives %s, not a comparison", vpath(st.Val))
+				case (op == "<" && zero(l) && isLen(r)) || (op == "!=" && (zero(l) && isLen(r) || zero(r) && isLen(l))):
+					c.Ok(rule, key, st.Pos(), "IsRecovering is `the set of terminals after error is non-empty`")
+				default:
+					c.Bad(rule, key, st.Pos(), "IsRecovering is %s %s %s, not a non-emptiness test: a grammar whose error token is followed by fewer terminals than the threshold is generated without error handler and recovery, and its parser stops at the first syntax error", vpath(l), op, vpath(r))
+				}
+			}
+		}
+	}
+	if n < 1 {
+		c.Lost(rule, "compiler:IsRecovering", "no store into IsRecovering found")
+	}
+}
